@@ -99,6 +99,14 @@ def edited_schema_cases(ctx, work):
             vcfgen.rich_file(rng, nrec=rng.choice([4, 12, 30]), ploidies=(2,))
         if not spec["records"]:
             continue
+        if k == 1:
+            # INFO keys spelled like the fixed columns (POS, QUAL, rlen are legal INFO ids): they must not be mistaken for them
+            for fid, typ in (("POS", "Integer"), ("QUAL", "Integer"), ("rlen", "Integer")):
+                spec["infos"].append({"id": fid, "number": "1", "type": typ})
+                for r in spec["records"]:
+                    if rng.random() < 0.7:
+                        r["info"][fid] = [rng.randrange(0, 9)]
+            ctx.count("inputs_info_named_like_fixed_columns")
         ctx.count("inputs_many_contigs" if k == 0 else "inputs")
         path = vcfgen.materialise(spec, pathlib.Path(work) / f"e{k}", "vcf.gz+tbi")
         icf = pathlib.Path(work) / f"e{k}.icf"
